@@ -435,7 +435,11 @@ def stage_scan(ctx, e):
     forms = ["acq", "acq/sub", "acq/deep", ".", "acq/.dotdir", "acq/../acq", "./acq", "acq/sub/..", "acq//sub", "acq/sub/../deep",
              "acq/./sub", "acq/", "..", "/abs", "acq/../../x", "acq/linkdir", "acq/indir", "nothing/../acq"]
     for form in forms:
-        for register in (True, False):
+        for register in (True, False, "elsewhere"):
+            elsewhere = register == "elsewhere"
+            register = bool(register)
+            if elsewhere and form not in ("acq", "acq/sub", ".", "./acq", "acq/"):
+                continue
             w = worldmod.World(e)
             db = w.db
             for m in (db.StorageTransferAction, db.ArchiveFileCopyRequest, db.ArchiveFileImportRequest, db.ArchiveFileCopy,
@@ -454,6 +458,13 @@ def stage_scan(ctx, e):
                 # registration off: only files already registered may gain a copy
                 acq = w.acq("acq")
                 db.ArchiveFile.create(acq=acq, name="sub/b.dat", size_b=4, md5sum=worldmod.md5(b"bbbb"))
+            if elsewhere:
+                # the file is already registered and another node (another group, another host) holds a copy of it: that is no
+                # reason to leave the copy on this node out of the index
+                acq = w.acq("acq")
+                fb = db.ArchiveFile.create(acq=acq, name="sub/b.dat", size_b=4, md5sum=worldmod.md5(b"bbbb"))
+                other = w.node("other", w.group("g2"), host="h2")
+                db.ArchiveFileCopy.create(file=fb, node=other, has_file=rng.choice("YMX"), wants_file="Y")
             e.set_host("h1")
             q = FairMultiFIFOQueue()
             un = upd.UpdateableNode(q, db.StorageNode.get(id=node.id))
@@ -472,7 +483,15 @@ def stage_scan(ctx, e):
                               {"kind": "scan", "form": form, "register": register})
                 continue
             regs = [(f.acq.name, f.name) for f in db.ArchiveFile.select()]
-            copies = [(c.file.acq.name, c.file.name) for c in db.ArchiveFileCopy.select()]
+            copies = [(c.file.acq.name, c.file.name) for c in db.ArchiveFileCopy.select().where(db.ArchiveFileCopy.node == node.id)]
+            if elsewhere:
+                mine = [c for c in db.ArchiveFileCopy.select().where(db.ArchiveFileCopy.node == node.id) if c.file.name == "sub/b.dat"]
+                ctx.count(f"scan:held-elsewhere:{'imported' if mine else 'skipped'}")
+                if len(mine) != 1 or mine[0].has_file != "Y":
+                    ctx.violation("scan:skipped-held-elsewhere", f"recursive import request {form!r} on node n: acq/sub/b.dat is on disk there "
+                                  f"(regular file, registered content) but has {len(mine)} copy record(s) on n "
+                                  f"{[(c.has_file, c.wants_file) for c in mine]} after the scan; another node holds a copy of the file",
+                                  {"kind": "scan", "form": form, "variant": "held elsewhere"})
             ctx.count(f"scan:{'canonical' if posixpath.normpath(form) == form and not form.startswith(('/', '..')) else 'odd'}:{'some' if copies else 'none'}")
             ctx.case(("scan", form, register), nontrivial=True, sample={"request_path": form, "register": register, "copies": copies[:6]} if form == "acq/../acq" else None)
             for a, n in set(regs) | set(copies):
